@@ -22,6 +22,15 @@ func genC01(g *gen) {
 		s[pos] = 3
 		shs = append(shs, s)
 	}
+	// higher ranks with pairwise different extents: the column-major constructors (raw backing / converting a
+	// row-major sequence) permute axes, which a symmetric or low-rank shape cannot tell apart
+	for _, sh := range [][]int{{2, 3, 2, 2}, {2, 3, 4, 2}, {3, 2, 2, 3}, {2, 1, 3, 2}, {2, 3, 2, 1, 2}, {2, 2, 3, 2, 2}} {
+		for _, ord := range orders {
+			for _, dt := range []string{"i32", "f64", "str"} {
+				g.emit(fmt.Sprintf("new %s %s %s", dt, ints(sh), ord), "atbox $0 0 -1", "dump $0", fmt.Sprintf("setat $0 %s", ints(make([]int, len(sh)))), "dump $0")
+			}
+		}
+	}
 	classes := []string{"asis", "lazyT", "physT", "slice", "slice"}
 	for si, sh := range shs {
 		for oi, ord := range orders {
